@@ -433,6 +433,20 @@ func Run(c *hx.Ctx) {
 					if keep == w.from && hb >= 0 {
 						// the process died before the queue write of the hand-off was durable: the sequencing layer never
 						// acknowledged it, nothing is marked, the transactions are still the mempool's (offered again)
+						// ... so it does not count as a hand-off of these transactions either
+						undone := map[string]bool{}
+						for _, tx := range w.handed[hb:] {
+							if !undone[string(tx)] {
+								undone[string(tx)] = true
+								if w.handOffs[string(tx)] > 0 {
+									w.handOffs[string(tx)]--
+								}
+								if w.handOffs[string(tx)] == 0 {
+									delete(w.copiesInOne, string(tx))
+									delete(w.dupHanded, string(tx))
+								}
+							}
+						}
 						w.handed = w.handed[:hb]
 					}
 				}
